@@ -125,6 +125,15 @@ PROPS = {
                     "each scenario digest (all predict / predict_expectations outputs) is computed in four fresh interpreters: PYTHONHASHSEED 0, 1, random, and one that "
                     "constructs, trains and queries five other bandits with other seeds before and between the calls; the correspondence compares the randomness trace "
                     "(every generator request) with the model; non-trivial = scenario with >= 1 query"},
+    "C19": {"gen": g_any, "fields": ("out", "arms"), "functional": False, "n": (100, 1000),
+            "relations": [], "batch": ("copy_and_pickle", REL.gen_c19, REL.run_c19_batch, (150, 2000)),
+            "rule": "a random history is driven on two identical originals A and B; at a random cut point (also before the first fit, after arm changes / warm start) "
+                    "A is copied by copy.deepcopy, by pickle protocols 2..5, or pickled to a file and restored in a FRESH interpreter (another hash seed); the continuation "
+                    "(rest of the history + partial_fit + queries) runs on the copy first, then on A, then on B: copy = B and A = B, call by call (bit-exact; linear policies rtol 1e-12); "
+                    "binarizers are module-level functions bound by functools.partial; non-trivial = continuation with >= 1 call",
+            "assumptions": ["in the model a bandit is a value: a copy IS the original, so the two theorems (a copy answers like the original; driving the copy never affects the "
+                            "original) are corollaries of determinism and of the isolation theorem of C04; what copy.deepcopy / pickle do to the Python object graph "
+                            "(shared arms list, shared and per-arm generators, default factories, scikit-learn estimators) is runtime behaviour observed by the relation only"]},
     "C18": {"gen": g_any, "fields": ("out", "arms"), "functional": False, "n": (100, 1000),
             "relations": [("containers_and_snapshots", REL.gen_c18, REL.run_c18, (250, 3000))],
             "rule": "the same history passed as lists (reference), C- / Fortran-ordered float arrays, int64 arrays, pandas Series (incl. the single-feature / single-row "
